@@ -12,5 +12,5 @@ Next == \E c \in Alphabet :
           /\ (Export => PrintT("@@T " \o Key(s) \o "|" \o ToString(c) \o "|" \o Key(n) \o "|" \o V(n)))
 Spec == Init /\ [][Next]_s
 TypeOK == s.v \in {"live", "dead", "unspec"} /\ s.n <= MaxToken
-DoneKeepsLength == s.st = "done" => s.n >= 3
+DoneKeepsLength == s.st = "done" => s.n >= 2                  \* two slashes at least
 ==============================================================================
